@@ -2,6 +2,7 @@
 package cli
 
 import (
+	"bytes"
 	"encoding/json"
 	"fmt"
 	"os"
@@ -12,6 +13,7 @@ import (
 	"github.com/BlackVectorOps/semantic_firewall/v3/pkg/analysis/topology"
 	"github.com/BlackVectorOps/semantic_firewall/v3/pkg/diff"
 	"github.com/BlackVectorOps/semantic_firewall/v3/pkg/models"
+	"golang.org/x/tools/go/ssa"
 )
 
 // -- Public API --
@@ -261,11 +263,47 @@ func CalculateTopologyDelta(oldT, newT *topology.FunctionTopology) (string, int)
 	return strings.Join(deltas, ", "), riskScore
 }
 
+const oversizedMarker = "OVERSIZED"
+
+// sameSSABody reports whether two functions have byte-identical SSA bodies (header comment
+// lines, which carry the source location, are ignored). Linear in the size of the functions.
+func sameSSABody(a, b *ssa.Function) bool {
+	if a == nil || b == nil {
+		return false
+	}
+	body := func(fn *ssa.Function) string {
+		var buf bytes.Buffer
+		fn.WriteTo(&buf)
+		var sb strings.Builder
+		for _, line := range strings.Split(buf.String(), "\n") {
+			if !strings.HasPrefix(line, "#") {
+				sb.WriteString(line)
+				sb.WriteByte('\n')
+			}
+		}
+		return sb.String()
+	}
+	return body(a) == body(b)
+}
+
 func CompareFunctions(funcName string, oldResult, newResult diff.FingerprintResult) models.FunctionDiff {
 	d := models.FunctionDiff{
 		Function:       funcName,
 		OldFingerprint: oldResult.Fingerprint,
 		NewFingerprint: newResult.Fingerprint,
+	}
+
+	// The OVERSIZED marker is a constant, not a fingerprint: two functions that were both
+	// too large to analyse must not be waved through because the marker compares equal.
+	// The only cheap evidence of "no change" for such functions is identical SSA text.
+	if oldResult.Fingerprint == oversizedMarker || newResult.Fingerprint == oversizedMarker {
+		d.FingerprintMatch = false
+		if sameSSABody(oldResult.GetSSAFunction(), newResult.GetSSAFunction()) {
+			d.Status = models.StatusPreserved
+		} else {
+			d.Status = models.StatusModified
+		}
+		return d
 	}
 
 	if oldResult.Fingerprint == newResult.Fingerprint {
